@@ -237,6 +237,18 @@ func TestC14(t *testing.T) {
 			if g == nil {
 				g = &hist.Gen{W: w, T: rt, Hostile: 4, Strange: 8, Kinds: hist.Profiles["governance"], Excl: h.Excluded, Seen: map[string]int{}, TagsN: map[string]int{}}
 				f = &fgen{w: w, m: m, u: u, g: g, rt: rt, pool: pool}
+				if flavour == "propopts" && u.N(3, "poq") != 0 {
+					// a funding-goal update that is pushed to a passing vote while other proposals are being funded
+					var goals []string
+					for _, c := range pool {
+						if strings.HasPrefix(c, "propOptions.") && strings.Contains(c, ".fundingGoal:") {
+							goals = append(goals, c)
+						}
+					}
+					if len(goals) > 0 {
+						f.cfgQueue = []string{goals[u.N(len(goals), "poq-which")]}
+					}
+				}
 				if flavour == "evidence" && u.N(2, "chain") == 0 {
 					// each valid when proposed; applying the second first makes the first invalid at its finalisation
 					f.cfgQueue = []string{"evidenceOptions.blockVotesDiff:1100", "evidenceOptions.minVotesRequired:700"}
